@@ -232,9 +232,9 @@ def run(tier, seed):
     total = Result()
     rng = random.Random(seed)
     if tier == 'quick':
-        L, Lh, kmax, nrandom, variants = 5, 3, 3, 4000, [('release', 1.0), ('dev', 0.25)]
+        L, Lh, kmax, nrandom, variants = 5, 3, 3, 4000, [('release', 1.0), ('dev', 0.25), ('plain', 0.2)]
     else:
-        L, Lh, kmax, nrandom, variants = 6, 4, 3, 100000, [('release', 1.0), ('dev', 0.25), ('nightly', 0.25)]
+        L, Lh, kmax, nrandom, variants = 6, 4, 3, 100000, [('release', 1.0), ('dev', 0.25), ('nightly', 0.25), ('plain', 0.1)]
     work = []
     for n in range(0, L + 1):
         for seq in itertools.product(ALPHA, repeat=n):
